@@ -60,9 +60,7 @@ theorem layout_pinned :
 
 /-- Fields whose reader shape is *not* the inverse of the writer shape in the table, with the reason. -/
 def declaredExceptions : List (String × String) :=
-  [("well.wtest_remaining", "the +1 is applied inside WellTestState::restart_well (num_test = conf.num_test + 1 - attempts)"),
-   ("well.water_void_rate", "FINDING: WWVIR is a reservoir-volume rate, the reader converts with liquid_surface_volume; field unused"),
-   ("well.gas_void_rate", "FINDING: WGVIR is a reservoir-volume rate, the reader converts with gas_surface_volume; field unused")]
+  [("well.wtest_remaining", "the +1 is applied inside WellTestState::restart_well (num_test = conf.num_test + 1 - attempts)")]
 
 def pairCls (p : WEntry × REntry) : Cls := classify (arrTy p.2.arr) p.1.rpre p.2.post
 
